@@ -7,7 +7,7 @@
    end of this file. *)
 From Coq Require Import List NArith ZArith Bool.
 Import ListNotations.
-From VF Require Import Base Core Core_lemmas Core_inv Core_props Cluster Cluster_proofs Below_proofs Below_cluster Extra_proofs.
+From VF Require Import Base Core Core_lemmas Core_inv Core_props Cluster Cluster_proofs Below_proofs Below_cluster Below_restart Extra_proofs.
 
 (* in every reachable state of the cluster, under every schedule, every claim about a member — a record
    held by any node, a broadcast queued anywhere, anything ever put on the network — carries at most
@@ -104,6 +104,66 @@ Proof.
   - cbn. repeat constructor; cbn; intuition discriminate.
   - apply grun_okb_ok. vm_compute. reflexivity.
   - vm_compute. split; reflexivity.
+Qed.
+
+(* ---------- members that crash and come back under the same name ---------- *)
+(* A restarted member starts again at incarnation 1 while claims from its earlier life are still held by
+   others and still on the network, so "at most the owner's current counter" stops being an invariant
+   (the example below reaches such a state).  For every schedule of the cluster with restarts: every claim
+   about a member carries an incarnation the member itself reached at some moment of the run, or a lower one *)
+Theorem C05_claims_below_history : forall cs acts,
+  Forall (fun cm => good_cfg (fst cm)) cs -> NoDup (map (fun cm => self (fst cm)) cs) ->
+  rrun_ok (boot_world cs) acts ->
+  let w := fst (rrun (boot_world cs) [boot_world cs] acts) in
+  let tr := snd (rrun (boot_world cs) [boot_world cs] acts) in
+  (forall c s n r, In (c, s) (wnodes w) -> lk s n = Some r -> hle tr n (rinc r)) /\
+  (forall c s k m, In (c, s) (wnodes w) -> In (k, m) (bq s) -> hle tr (mname m) (minc m)) /\
+  (forall p, In p (wpool w) -> hle tr (pname p) (pinc p)).
+Proof. exact claims_below_history. Qed.
+Print Assumptions C05_claims_below_history.
+
+(* the inductive step with restarts *)
+Theorem C05_restart_step : forall tr w a, RW tr w -> ract_ok w a -> RW (rstep w a :: tr) (rstep w a).
+Proof. exact rstep_RW. Qed.
+Print Assumptions C05_restart_step.
+
+(* a member — freshly restarted or not — that hears an accusation at or above its own record (for a
+   restarted member: any claim left over from its earlier life) moves strictly above it and queues its
+   alive message; by C05_refutation_accepted whoever holds the older record then lists it alive *)
+Theorem C05_restarted_member_overtakes : forall c s r inc from,
+  Inv c s -> leaving s = false -> lk s (self c) = Some r -> rst r = Alive -> (rinc r <= inc)%N ->
+  below_max inc -> below_max (linc s) ->
+  let s' := fst (do_suspect c s inc (self c) from) in
+  (inc < linc s')%N /\ (linc s < linc s')%N /\
+  alookup (kaddr (raddr r)) (bq s') = Some (BAlive (linc s') (self c) (raddr r) (rmeta r) (rvsn r)).
+Proof. exact restarted_member_overtakes. Qed.
+Print Assumptions C05_restarted_member_overtakes.
+
+(* non-vacuity: member 1 updates its metadata (incarnation 2) and member 2 learns it; member 1 crashes and
+   restarts (incarnation 1) — member 2 now holds a record of it ABOVE its counter; member 2's push/pull
+   state reaches member 1, which jumps to incarnation 3, and member 2 accepts that *)
+Definition rsched1 : list ract :=
+  [RA (GA (WSnapshot 0)); RA (GA (WDeliver 1 0)); RA (GA (WUpdate 0 11 0)); RA (GA (WGossip 0)); RA (GA (WDeliver 1 0));
+   RRestart 0 12].
+Definition rsched2 : list ract :=
+  [RA (GA (WSnapshot 1)); RA (GA (WDeliver 0 1)); RA (GA (WGossip 0)); RA (GA (WDeliver 1 1))].
+Definition rview (w : world) :=
+  map (fun cs => (linc (snd cs), map (fun p => (fst p, rinc (snd p), rst (snd p))) (recs (snd cs)))) (wnodes w).
+Example C05_restart_nonvacuous :
+  let cs := [(cfgn 1, 10%N); (cfgn 2, 20%N)] in
+  Forall (fun cm => good_cfg (fst cm)) cs /\ NoDup (map (fun cm => self (fst cm)) cs) /\
+  rrun_ok (boot_world cs) (rsched1 ++ rsched2) /\
+  rview (fst (rrun (boot_world cs) [boot_world cs] rsched1)) =
+    [(1, [(1, 1, Alive)]); (1, [(2, 1, Alive); (1, 2, Alive)])]%N /\
+  rview (fst (rrun (boot_world cs) [boot_world cs] (rsched1 ++ rsched2))) =
+    [(3, [(1, 3, Alive)]); (1, [(2, 1, Alive); (1, 3, Alive)])]%N.
+Proof.
+  cbv zeta. split; [|split; [|split; [|split]]].
+  - repeat constructor.
+  - cbn. repeat constructor; cbn; intuition discriminate.
+  - apply rrun_okb_ok. vm_compute. reflexivity.
+  - vm_compute. reflexivity.
+  - vm_compute. reflexivity.
 Qed.
 
 (* The property as worded ("if the live nodes' member lists still connect them ... then every live node's
